@@ -1917,4 +1917,103 @@ theorem backendError_bodiless (cfg : Cfg) (st : St) (hs : st.started = true) (hb
   simp [gwBackendError, backendError, hs, hb]
 
 
+/-! ## what lighttpd does when the backend stream breaks: shared cores of the C10 theorems -/
+
+/-- what http_chunk_close() may add: the last-chunk of a body that lighttpd chunk-encodes itself -/
+def ownLastChunk (st : St) : Bytes := if st.sendChunked && st.dc.isNone then ofString "0\r\n\r\n" else []
+
+theorem chunkClose_proj (st : St) :
+    (chunkClose st).wq = st.wq ++ ownLastChunk st ∧ (chunkClose st).evs = st.evs ∧
+    (chunkClose st).cstate = st.cstate ∧ (chunkClose st).open_ = st.open_ ∧ (chunkClose st).cerr = st.cerr ∧
+    ((chunkClose st).keepAlive = true → st.keepAlive = true) := by
+  unfold chunkClose ownLastChunk
+  cases hs : st.sendChunked <;> cases hd : st.dc <;> simp [hs, hd]
+  split <;> simp
+
+
+theorem ownLastChunk_nil (st : St) (h : st.sendChunked = true → st.dc.isSome = true) : ownLastChunk st = [] := by
+  unfold ownLastChunk
+  cases hs : st.sendChunked <;> cases hd : st.dc <;> simp_all
+
+/-- lighttpd answered with its own complete error response of that status (HTTP/1.x): status
+    line, fields, empty line, the error page (nothing for HEAD), keep-alive as negotiated; for a
+    request other than HEAD the fields are exactly Content-Type, the Content-Length of the page,
+    Connection / Date (`errFields`) -/
+def OwnError (cfg : Cfg) (st st' : St) (status : Nat) : Prop :=
+  st'.status = status ∧ st'.cstate = .done ∧ st'.keepAlive = st.keepAlive ∧
+  (∃ fields, st'.evs = pushW st.evs
+      (h1StatusLine cfg status ++ fields ++ crlf ++ crlf ++ (if cfg.head then [] else errorPage status))) ∧
+  (cfg.head = false → st'.evs = pushW st.evs
+      (h1StatusLine cfg status ++ errFields cfg status st.keepAlive ++ crlf ++ crlf ++ errorPage status))
+
+theorem ownError_conStep (cfg : Cfg) (st st1 : St) (status : Nat) (hv : cfg.ver ≤ 1) (hc : st1.cstate = .handle)
+    (ho : st1.open_ = false) (hh : st1.handler = false) (hs : st1.status = status)
+    (h5 : status = 500 ∨ status = 502) (hk : st1.keepAlive = st.keepAlive) (he : st1.evs = st.evs) :
+    OwnError cfg st (conStep cfg st1) status := by
+  have h4 : 400 ≤ st1.status := by rcases h5 with h | h <;> omega
+  have h6 : st1.status < 600 := by rcases h5 with h | h <;> omega
+  have h401 : st1.status ≠ 401 := by rcases h5 with h | h <;> omega
+  obtain ⟨c1, c2, c3, ⟨f, c4⟩⟩ := conStep_errdoc cfg st1 hv hc ho hh h4 h6
+  refine ⟨by rw [c1, hs], c2, by rw [c3, hk], ⟨f, by rw [c4, hs, he]⟩, fun hhead => ?_⟩
+  rw [conStep_errdoc_fields cfg st1 hv hc ho hh h4 h6 h401 hhead, hs, he, hk]
+
+/-- closing the backend context of a response whose head is out and whose body is short of its
+    announced end: abort (the core of `c10_truncated_after_head_closes`) -/
+theorem abort_of_gwClose_truncated (cfg : Cfg) (st : St) (hv : cfg.ver ≤ 1) (hc : st.cstate = .write)
+    (hh : st.handler = true) (hf : st.finished = false) (hsent : st.hdrSent = true)
+    (ht : bodyTruncated cfg st = true) :
+    (conStep cfg (gwClose cfg st)).keepAlive = false ∧ (conStep cfg (gwClose cfg st)).cstate = .done ∧
+    (conStep cfg (gwClose cfg st)).evs = pushW st.evs (st.wq ++ (if cfg.ver = 1 then ownLastChunk st else [])) := by
+  have hv2 : ¬ (cfg.ver ≥ 2) := by omega
+  rw [gwClose_handler cfg st hh, backendDone_truncated_sent cfg { st with open_ := false } hc hf hsent ht]
+  generalize hst2 : ({ st with open_ := false } : St) = st2
+  obtain ⟨k1, k2, k3, _, _, k6⟩ := chunkClose_proj (backendAbort cfg st2)
+  have hka : (BeResp.chunkClose (backendAbort cfg st2)).keepAlive = false := by
+    cases hk : (BeResp.chunkClose (backendAbort cfg st2)).keepAlive
+    · rfl
+    · have := k6 hk; simp [backendAbort] at this
+  have e1 : st2.cstate = .write := by rw [← hst2]; exact hc
+  have e2 : st2.wq = st.wq := by rw [← hst2]
+  have e3 : st2.evs = st.evs := by rw [← hst2]
+  have e4 : ownLastChunk (backendAbort cfg st2) = ownLastChunk st := by rw [← hst2]; rfl
+  by_cases h1 : cfg.ver = 1
+  · simp only [h1, if_true]
+    have c1 : (BeResp.chunkClose (backendAbort cfg st2)).cstate = .write := by rw [k3]; simp [backendAbort, e1]
+    have c2 : (BeResp.chunkClose (backendAbort cfg st2)).wq = st.wq ++ ownLastChunk st := by
+      rw [k1, e4]; simp [backendAbort, e2]
+    have c3 : (BeResp.chunkClose (backendAbort cfg st2)).evs = st.evs := by rw [k2]; simp [backendAbort, e3]
+    simp [conStep, c1, h1Progress, flush, c2, c3, hka, h1]
+  · simp [h1, conStep, e1, e2, e3, backendAbort, hv2, h1Progress, flush]
+
+/-- the response state after a read in which the chunked decoder met a framing error: what was
+    decoded before the error is queued (nothing in pass-through mode) -/
+def dechunkErrSt (st : St) (d : DcSt) (data : Bytes) : St :=
+  { st with
+    wq := st.wq ++ (if st.sendChunked then [] else (dcFeed { d with out := [] } data).out),
+    dc := some { (dcFeed { d with out := [] } data) with out := [] } }
+
+/-- the backend read that hits a chunked framing error, on a started response of a backend without
+    record layer: what was decoded before the error is queued (nothing in pass-through mode), then
+    the error path of gw_backend_error() -/
+theorem gwRecvData_dechunk_err (cfg : Cfg) (st : St) (d : DcSt) (data : Bytes) (hbe : cfg.be ≠ .fcgi)
+    (hs : st.started = true) (hdec : st.decodeChunked = true) (hd : st.dc = some d) (hdd : st.dcDone = 0)
+    (herr : (dcFeed { d with out := [] } data).mode = .err) :
+    gwRecvData cfg st data = gwBackendError cfg (dechunkErrSt st d data) := by
+  unfold dechunkErrSt
+  cases st with
+  | mk status started finished handler keepAlive headers scratch decodeChunked sendChunked dc dcDone trailerBuf wq
+       hbuf fcgi fcgiSend open_ cstate hdrSent cerr evs =>
+    simp only at hs hdec hd hdd herr
+    subst hs hdec hd hdd
+    unfold gwRecvData
+    simp only [hbe, if_false]
+    unfold readPlain
+    simp only [Bool.not_true, Bool.false_eq_true, if_false]
+    unfold appendMem
+    simp only [if_true]
+    unfold dechunkAppend
+    simp only [ne_eq, not_true_eq_false, if_false, herr]
+    cases sendChunked <;> simp
+
+
 end LtVerif.BeResp
